@@ -6,7 +6,7 @@ W=/tmp/confirm-$N
 rm -rf $W /tmp/confirm-build-$N; git -C /repo worktree prune
 git -C /repo worktree add -q --detach $W HEAD || exit 2
 SRCS="$(ls $W/src/*.c $W/src/endpoints/*.c $W/src/registers/*.c $W/src/compat/*.c | grep -v posix)"
-CC="gcc -std=gnu99 -D_DEFAULT_SOURCE -DSYSTEM_ENDIANNESS_LITTLE -DUFW_USE_BUILTIN_SWAP -I$W/include -I/verif/harness/include -w"
+CC="gcc -std=gnu99 -D_DEFAULT_SOURCE -DSYSTEM_ENDIANNESS_LITTLE -DUFW_USE_BUILTIN_SWAP -I$W/include -I/verif/harness/include -w $CONFIRM_EXTRA"
 $CC $D $SRCS -lm -o /tmp/confirm-demo-$N-orig || { echo "demo does not compile (orig)"; }
 /tmp/confirm-demo-$N-orig > /tmp/confirm-$N-orig.out 2>&1; echo "demo without change: exit $? ($(tail -1 /tmp/confirm-$N-orig.out | cut -c1-80))"
 git -C $W apply $P || { echo "patch does not apply"; git -C /repo worktree remove --force $W; exit 2; }
